@@ -309,9 +309,28 @@ func (c *FnCtx) callWithContract(fr *Frame, st *State, fn *ssa.Function, spec *F
 		c.assumed["trusted postcondition of "+name+": "+e.Text] = true
 	}
 	if r := tupleVal(resT, vs); r != nil {
-		c.lastCall[fn.Name()] = *r
+		nv := *r
+		if prev, ok := c.lastCall[fn.Name()]; ok && st.guard != "true" {
+			// the most recent call *on the path taken*: an earlier call stays the last one where this one is not reached
+			nv = c.iteVal(st.guard, nv, prev)
+		}
+		c.lastCall[fn.Name()] = nv
 	}
 	return tupleVal(resT, vs)
+}
+
+func (c *FnCtx) iteVal(g string, a, b Val) Val {
+	if len(a.Tuple) > 0 && len(a.Tuple) == len(b.Tuple) {
+		out := Val{T: a.T}
+		for k := range a.Tuple {
+			out.Tuple = append(out.Tuple, c.iteVal(g, a.Tuple[k], b.Tuple[k]))
+		}
+		return out
+	}
+	if a.E == "" || b.E == "" {
+		return a
+	}
+	return Val{T: a.T, E: c.sc.Define("last", c.ty.SortOf(a.T), Ite(g, a.E, b.E))}
 }
 
 func shortFn(name string) string {
@@ -539,6 +558,29 @@ func (c *FnCtx) invoke(fr *Frame, st *State, recv Val, m *types.Func, args []Val
 		bs := st.clone()
 		bs.guard = c.sc.Define("g", sBool, And(st.guard, cond))
 		rv := Val{T: it, E: c.sc.Define("rcv", c.ty.SortOf(it), c.unboxed(it, "(i-val "+recv.E+")"))}
+		if ix := sel.Index(); len(ix) > 1 {
+
+			// method promoted from embedded struct values: call the declared method on the embedded value
+			// (go/ssa would route this through a synthetic wrapper)
+			cur, ok := rv, true
+			for _, fi := range ix[:len(ix)-1] {
+				stt, isS := cur.T.Underlying().(*types.Struct)
+				if !isS || !isStructVal(cur.T) {
+					ok = false
+					break
+				}
+				si := c.ty.structInfoOf(cur.T)
+				ft := stt.Field(fi).Type()
+				cur = Val{T: ft, E: c.sc.Define("emb", c.ty.SortOf(ft), App(si.fields[fi], cur.E))}
+			}
+			if tf, isF := sel.Obj().(*types.Func); ok && isF {
+				if decl := c.eng.prog.FuncValue(tf); decl != nil && isStructVal(cur.T) {
+					if _, ptrRecv := tf.Type().(*types.Signature).Recv().Type().(*types.Pointer); !ptrRecv {
+						mf, rv = decl, cur
+					}
+				}
+			}
+		}
 		r := c.callFunc(fr, bs, mf, nil, append([]Val{rv}, args...), pos)
 		brs = append(brs, branch{cond, bs, r})
 	}
